@@ -36,6 +36,19 @@ func HexList(bs [][]byte) string {
 	return strings.Join(s, ",")
 }
 
+// Yield is called by every key-object operation BEFORE it looks at its arguments: a
+// "slow device" (hardware token, agent socket). The concurrent stress of C20 sets it to
+// runtime.Gosched-loops so that another goroutine runs between the library handing a
+// buffer to the key and the key reading it; nil otherwise. Set only while no
+// operation is running.
+var Yield func()
+
+func yield() {
+	if y := Yield; y != nil {
+		y()
+	}
+}
+
 // Log collects key-object calls in program order.
 type Log struct {
 	mu    sync.Mutex
@@ -144,11 +157,13 @@ func NewBoxSecret(sec []byte, hide bool, log *Log, c *EphCreator) *BoxSecret {
 }
 
 func (k *BoxSecret) Box(receiver saltpack.BoxPublicKey, nonce saltpack.Nonce, msg []byte) []byte {
+	yield()
 	k.Log.add("box:%s:%s", Hex(nonce[:]), Hex(msg))
 	return box.Seal([]byte{}, msg, (*[24]byte)(&nonce), (*[32]byte)(receiver.ToRawBoxKeyPointer()), &k.Sec)
 }
 
 func (k *BoxSecret) Unbox(sender saltpack.BoxPublicKey, nonce saltpack.Nonce, msg []byte) ([]byte, error) {
+	yield()
 	k.Log.add("unbox:%s:%s", Hex(nonce[:]), Hex(msg))
 	ret, ok := box.Open([]byte{}, msg, (*[24]byte)(&nonce), (*[32]byte)(sender.ToRawBoxKeyPointer()), &k.Sec)
 	if !ok {
@@ -165,6 +180,7 @@ type Shared struct {
 }
 
 func (k *BoxSecret) Precompute(peer saltpack.BoxPublicKey) saltpack.BoxPrecomputedSharedKey {
+	yield()
 	k.Log.add("precompute:%s", Hex(peer.ToRawBoxKeyPointer()[:]))
 	s := &Shared{log: k.Log}
 	box.Precompute(&s.key, (*[32]byte)(peer.ToRawBoxKeyPointer()), &k.Sec)
@@ -172,11 +188,13 @@ func (k *BoxSecret) Precompute(peer saltpack.BoxPublicKey) saltpack.BoxPrecomput
 }
 
 func (s *Shared) Box(nonce saltpack.Nonce, msg []byte) []byte {
+	yield()
 	s.log.add("sbox:%s:%s", Hex(nonce[:]), Hex(msg))
 	return box.SealAfterPrecomputation([]byte{}, msg, (*[24]byte)(&nonce), &s.key)
 }
 
 func (s *Shared) Unbox(nonce saltpack.Nonce, msg []byte) ([]byte, error) {
+	yield()
 	s.log.add("sunbox:%s:%s", Hex(nonce[:]), Hex(msg))
 	ret, ok := box.OpenAfterPrecomputation([]byte{}, msg, (*[24]byte)(&nonce), &s.key)
 	if !ok {
@@ -191,6 +209,7 @@ type SigPublic struct{ Key []byte }
 
 func (k SigPublic) ToKID() []byte { return k.Key }
 func (k SigPublic) Verify(msg, sig []byte) error {
+	yield()
 	if len(k.Key) != ed25519.PublicKeySize || !ed25519.Verify(k.Key, msg, sig) {
 		return saltpack.ErrBadSignature
 	}
@@ -208,6 +227,7 @@ func NewSigSecret(seed []byte, log *Log) *SigSecret {
 }
 
 func (k *SigSecret) Sign(msg []byte) ([]byte, error) {
+	yield()
 	k.Log.add("sign:%s", Hex(msg))
 	return ed25519.Sign(k.priv, msg), nil
 }
